@@ -32,3 +32,149 @@ TWINS = [
     {"name": "guarded-int-moved-into-helper", "edits": [(H, "def parse_age(value: str | None = None) -> timedelta | None:", "def _age_seconds(value: str) -> int | None:\n    try:\n        return int(value)\n    except ValueError:\n        return None\n\n\ndef parse_age(value: str | None = None) -> timedelta | None:"), (H, "    try:\n        seconds = int(value)\n    except ValueError:\n        return None\n    if seconds < 0:", "    seconds = _age_seconds(value)\n    if seconds is None:\n        return None\n    if seconds < 0:")]},
     {"name": "range-guard-mirrored", "edits": [(H, "                if begin >= end:\n                    return None", "                if end <= begin:\n                    return None")]},
 ]
+
+# ---------------------------------------------------------------------
+# refactored shapes (own variants): a site moved into a helper / rewritten must be accepted only while the premise can
+# still be established on the new shape; the same shape with the premise broken must still be reported.
+M = "sansio/multipart.py"
+AC = "datastructures/accept.py"
+
+Q_HELPER = (H, '_TAnyAccept = t.TypeVar("_TAnyAccept", bound="ds.Accept")', '_TAnyAccept = t.TypeVar("_TAnyAccept", bound="ds.Accept")\n\n\ndef _to_quality(text: str) -> float:\n    return float(text)')
+Q_CALL = (H, "            q = float(q_str)\n", "            q = _to_quality(q_str)\n")
+Q_CALL_UNGUARDED = (H, "            if _q_value_re.fullmatch(q_str) is None:\n                # ignore an invalid q\n                continue\n\n            q = float(q_str)\n", "            q = _to_quality(q_str)\n")
+Q_EXP = (H, '_q_value_re = re.compile(r"-?\\d+(\\.\\d+)?", re.ASCII)', '_q_value_re = re.compile(r"-?\\d+(\\.\\d+)?(e\\w+)?", re.ASCII)')
+
+UNSLASH_OLD = '    v = m.group(1)\n\n    if len(v) == 1:\n        return v\n\n    return int(v, 8).to_bytes(1, "big")\n'
+UNSLASH_RENAMED = (S, UNSLASH_OLD, '    digits = m.group(1)\n\n    if len(digits) > 1:\n        code = int(digits, 8)\n        return code.to_bytes(1, "big")\n\n    return digits\n')
+UNSLASH_NO_TEST = (S, UNSLASH_OLD, '    digits = m.group(1)\n    code = int(digits, 8)\n    return code.to_bytes(1, "big")\n')
+
+OPT_HELPER = (H, "def dump_options_header(header: str | None, options: t.Mapping[str, t.Any]) -> str:", 'def _fmt_option(name: str, val: t.Any) -> str:\n    star = name[-1] == "*"\n    return f"{name}={val}" if star else f"{name}={quote_header_value(val)}"\n\n\ndef dump_options_header(header: str | None, options: t.Mapping[str, t.Any]) -> str:')
+OPT_CALL = (H, '        if key[-1] == "*":\n            segments.append(f"{key}={value}")\n        else:\n            segments.append(f"{key}={quote_header_value(value)}")\n', "        segments.append(_fmt_option(key, value))\n")
+EMPTY_KEY_KEPT = (H, "        if not pk:\n            # *=a or *0=a has no key, skip this invalid part\n            continue\n\n", "")
+
+RANGE_OLD = """        if "-" not in item:
+            return None
+        if item.startswith("-"):
+            if last_end < 0:
+                return None
+            try:
+                begin = _plain_int(item)
+            except ValueError:
+                return None
+            end = None
+            last_end = -1
+        elif "-" in item:
+            begin_str, end_str = item.split("-", 1)
+            begin_str = begin_str.strip()
+            end_str = end_str.strip()
+
+            try:
+                begin = _plain_int(begin_str)
+            except ValueError:
+                return None
+
+            if begin < last_end or last_end < 0:
+                return None
+            if end_str:
+                try:
+                    end = _plain_int(end_str) + 1
+                except ValueError:
+                    return None
+
+                if begin >= end:
+                    return None
+            else:
+                end = None
+            last_end = end if end is not None else -1
+        ranges.append((begin, end))
+"""
+RANGE_NEW = """        if "-" not in item:
+            return None
+        if last_end < 0:
+            return None
+        first, _dash, last = item.partition("-")
+        first = first.strip()
+        last = last.strip()
+        try:
+            if not first:
+                begin = _plain_int(item)
+                end = None
+            else:
+                begin = _plain_int(first)
+                end = _plain_int(last) + 1 if last else None
+        except ValueError:
+            return None
+        if first:
+            if last_end > begin:
+                return None
+            if end is not None and not begin < end:
+                return None
+        last_end = end if end is not None else -1
+        ranges.append((begin, end))
+"""
+RANGE_REWRITTEN = (H, RANGE_OLD, RANGE_NEW)
+RANGE_REWRITTEN_OFF_BY_ONE = (H, RANGE_OLD, RANGE_NEW.replace("not begin < end", "not begin <= end"))
+RANGE_REWRITTEN_NO_FLOOR = (H, RANGE_OLD, RANGE_NEW.replace("            if last_end > begin:\n                return None\n", ""))
+
+EVENT_LOOP_HEAD = (F, "            event = parser.next_event()\n            while not isinstance(event, (Epilogue, NeedData)):\n", "            while True:\n                event = parser.next_event()\n                if isinstance(event, (NeedData, Epilogue)):\n                    break\n")
+EVENT_LOOP_HEAD_NO_NEED_DATA = (F, "            event = parser.next_event()\n            while not isinstance(event, (Epilogue, NeedData)):\n", "            while True:\n                event = parser.next_event()\n                if isinstance(event, Epilogue):\n                    break\n")
+EVENT_LOOP_TAIL = (F, "\n                event = parser.next_event()\n\n        return self.cls(fields), self.cls(files)", "\n        return self.cls(fields), self.cls(files)")
+CHUNK_OLD = "    while True:\n        data = read(size)\n\n        if not data:\n            break\n\n        yield data\n"
+CHUNK_WALRUS = (F, CHUNK_OLD, "    while chunk := read(size):\n        yield chunk\n")
+CHUNK_NO_BREAK = (F, CHUNK_OLD, "    while True:\n        data = read(size)\n\n        yield data\n")
+
+IDNA_HELPER = (U, "def _decode_idna(domain: str) -> str:", 'def _label_text(raw: bytes) -> str:\n    try:\n        return raw.decode("idna")\n    except UnicodeError:\n        return raw.decode("ascii")\n\n\ndef _decode_idna(domain: str) -> str:')
+IDNA_CALL = (U, '        try:\n            parts.append(part.decode("idna"))\n        except UnicodeError:\n            parts.append(part.decode("ascii"))\n', "        parts.append(_label_text(part))\n")
+IDNA_UTF8 = (U, '        data = domain.encode("ascii")\n', '        data = domain.encode("utf-8")\n')
+
+MIME_HELPER = (AC, "def _normalize_mime(value: str) -> list[str]:", "def _mime_head(value: str) -> tuple[str, str]:\n    pieces = _normalize_mime(value)\n    return pieces[0], pieces[1]\n\n\ndef _normalize_mime(value: str) -> list[str]:")
+MIME_CALL_V = (AC, "        value_type, value_subtype = normalized_value[:2]\n", "        value_type, value_subtype = _mime_head(value)\n")
+MIME_CALL_I = (AC, "        item_type, item_subtype = normalized_item[:2]\n", "        item_type, item_subtype = _mime_head(item)\n")
+MIME_ITEM_UNGUARDED = (AC, '        if "/" not in item:\n            return False\n\n        # value comes', "        # value comes")
+
+MUTANTS += [
+    {"name": "q-helper-regex-allows-exponent", "expect": "R7.1", "edits": [Q_HELPER, Q_CALL, Q_EXP]},
+    {"name": "q-helper-caller-guard-dropped", "expect": "R7.1", "edits": [Q_HELPER, Q_CALL_UNGUARDED]},
+    {"name": "unslash-renamed-without-length-test", "expect": "R7.1", "edits": [UNSLASH_NO_TEST]},
+    {"name": "unslash-renamed-any-octal", "expect": "R7.1", "edits": [UNSLASH_RENAMED, (S, r'rb"\\([0-3][0-7]{2}|.)"', r'rb"\\([0-7]{3}|.)"')]},
+    {"name": "option-helper-empty-key-kept", "expect": "R7.1", "edits": [OPT_HELPER, OPT_CALL, EMPTY_KEY_KEPT]},
+    {"name": "range-rewritten-off-by-one", "expect": "R7.1", "edits": [RANGE_REWRITTEN_OFF_BY_ONE]},
+    {"name": "range-rewritten-begin-floor-dropped", "expect": "R7.1", "edits": [RANGE_REWRITTEN_NO_FLOOR]},
+    {"name": "idna-helper-fed-utf8", "expect": "R7.1", "edits": [IDNA_HELPER, IDNA_CALL, IDNA_UTF8]},
+    {"name": "mime-helper-item-unguarded", "expect": "R7.1", "edits": [MIME_HELPER, MIME_CALL_V, MIME_CALL_I, MIME_ITEM_UNGUARDED]},
+    {"name": "key-rebound-after-emptiness-test", "expect": "R7.1", "edits": [(H, "        key = key.strip()\n\n        if not key:\n            # =value is not valid\n            continue\n", "        if not key:\n            # =value is not valid\n            continue\n\n        key = key.strip()\n")]},
+    {"name": "event-loop-never-leaves-on-need-data", "expect": "R7.2", "edits": [EVENT_LOOP_HEAD_NO_NEED_DATA, EVENT_LOOP_TAIL]},
+    {"name": "chunk-loop-without-empty-read-exit", "expect": "R7.2", "edits": [CHUNK_NO_BREAK]},
+    {"name": "etag-regex-tail-optional", "expect": "R7.2", "edits": [(H, "(?:\\s*,\\s*|$)')", "(?:\\s*,\\s*)?')")]},
+    {"name": "data-event-without-buffer-deletion", "expect": "R7.2", "edits": [(M, "self._parse_data(self.buffer, start=False)\n            del self.buffer[:del_index]\n", "self._parse_data(self.buffer, start=False)\n")]},
+]
+TWINS += [
+    {"name": "q-conversion-in-helper-guard-in-caller", "edits": [Q_HELPER, Q_CALL]},
+    {"name": "unslash-renamed-flipped", "edits": [UNSLASH_RENAMED]},
+    {"name": "option-item-helper", "edits": [OPT_HELPER, OPT_CALL]},
+    {"name": "range-parser-rewritten", "edits": [RANGE_REWRITTEN]},
+    {"name": "event-loop-while-true-and-walrus-chunks", "edits": [EVENT_LOOP_HEAD, EVENT_LOOP_TAIL, CHUNK_WALRUS]},
+    {"name": "idna-label-helper", "edits": [IDNA_HELPER, IDNA_CALL]},
+    {"name": "mime-head-helper-guard-in-caller", "edits": [MIME_HELPER, MIME_CALL_V, MIME_CALL_I]},
+    {"name": "match-test-spelled-is-not-none", "edits": [(H, "            key = key[:-1]\n            match = _charset_value_re.match(value)\n\n            if match:\n", "            key = key[:-1]\n            match = _charset_value_re.match(value)\n\n            if match is not None:\n")]},
+    {"name": "csp-early-continue-plain-split", "edits": [(H, '        if " " in policy:\n            directive, value = policy.strip().split(" ", 1)\n            items.append((directive.strip(), value.strip()))\n', '        if " " not in policy:\n            continue\n\n        directive, value = policy.split(" ", 1)\n        items.append((directive.strip(), value.strip()))\n')]},
+]
+
+# a read / allocation sized by the client's Content-Length (new modelled kind `size`)
+W = "wsgi.py"
+MUTANTS += [
+    {"name": "readall-asks-for-the-whole-remaining-length", "expect": "R7.1", "edits": [(W, "            data = self.read(1024 * 64)\n", "            left = self.limit - self._pos\n            data = self.read(max(1, left))\n")]},
+    {"name": "temp-buffer-sized-by-limit-unguarded", "expect": "R7.1", "edits": [(W, "            if size <= remaining:\n                # The size fits", "            if size == remaining:\n                # The size fits")]},
+]
+TWINS += [
+    {"name": "readall-chunk-capped-by-min", "edits": [(W, "            data = self.read(1024 * 64)\n", "            data = self.read(min(1024 * 64, self.limit - self._pos))\n")]},
+    {"name": "temp-buffer-in-conditional-expression", "edits": [(W, "            else:\n                # Use a temp buffer with the remaining limit as the size.\n                temp_b = bytearray(remaining)\n", "            else:\n                # Use a temp buffer with the remaining limit as the size.\n                small = remaining < size\n                temp_b = bytearray(remaining) if small else bytearray(size)\n")]},
+]
+
+# further spellings of the same code
+TWINS += [
+    {"name": "etag-loop-else-break", "edits": [(H, "        if match is None:\n            break\n        is_weak, quoted, raw = match.groups()\n        if raw == \"*\":\n            return ds.ETags(star_tag=True)\n        elif quoted:\n            raw = quoted\n        if is_weak:\n            weak.append(raw)\n        else:\n            strong.append(raw)\n        pos = match.end()\n", "        if match is not None:\n            is_weak, quoted, raw = match.groups()\n            if raw == \"*\":\n                return ds.ETags(star_tag=True)\n            elif quoted:\n                raw = quoted\n            if is_weak:\n                weak.append(raw)\n            else:\n                strong.append(raw)\n            pos = match.end()\n        else:\n            break\n")]},
+    {"name": "option-parts-unpacked-in-the-body", "edits": [(H, "    for pk, pv in parts:\n        if pk[-1] == \"*\":", "    for part in parts:\n        pk, pv = part\n\n        if pk[-1] == \"*\":")]},
+    {"name": "q-converted-from-the-match-object", "edits": [(H, "            if _q_value_re.fullmatch(q_str) is None:\n                # ignore an invalid q\n                continue\n\n            q = float(q_str)\n", "            q_match = _q_value_re.fullmatch(q_str)\n\n            if not q_match:\n                # ignore an invalid q\n                continue\n\n            q = float(q_match.group())\n")]},
+    {"name": "options-iterated-by-key", "edits": [(H, "    for key, value in options.items():\n        if value is None:\n            continue\n\n        if key[-1] == \"*\":", "    for key in options:\n        value = options[key]\n\n        if value is None:\n            continue\n\n        if key[-1] == \"*\":")]},
+]
